@@ -10,7 +10,7 @@ ID = "C19"
 ENGINE = "warmsim"
 LEVEL = "exploration"
 WITH_NUMPY = True
-RUNS = {"quick": 6000, "thorough": 100000}
+RUNS = {"quick": 12000, "thorough": 100000}
 CHUNK = 100
 RULE = ("a pool of ~60 values of diverse concrete types (built-ins, subclasses of str/int/float/dict/list/tuple, "
         "UserDict/UserList/OrderedDict/deque/namedtuple/range/bytes/bytearray/memoryview/dict views/sets, nan/inf, "
